@@ -101,4 +101,6 @@ func (m *defaultVarMocker) doSet(value interface{}) {
 	}
 	m.targetValue.Elem().Set(d)
 	m.mockValue = value
+	// 重新 Set/Apply 之后该 mocker 重新生效(之前可能被 Cancel/Reset 过), 否则 Builder 会另建一个 mocker 并把 mock 值当成原始值
+	m.canceled = false
 }
